@@ -42,7 +42,7 @@ BeginState(e, newTrace) ==
   /\ faults' = 0
   /\ starts' = IF newTrace THEN 1 ELSE starts + 1
   /\ discarded' = IF newTrace THEN [f \in c.fans |-> FALSE] ELSE discarded
-  /\ had' = [f \in c.fans |-> FanOf(e.fans, f).hadData /\ (FanOf(e.fans, f).hadMap \/ c.cfgMap[f])]
+  /\ had' = [f \in c.fans |-> [data |-> FanOf(e.fans, f).hadData, map |-> FanOf(e.fans, f).hadMap \/ c.cfgMap[f]]]
 
 MInit ==
   /\ Trace[1].ev = "Begin"
@@ -61,7 +61,7 @@ MInit ==
      /\ ana = [f \in c.fans |-> FALSE]
      /\ faults = 0 /\ starts = 1
      /\ discarded = [f \in c.fans |-> FALSE]
-     /\ had = [f \in c.fans |-> FanOf(e.fans, f).hadData /\ (FanOf(e.fans, f).hadMap \/ c.cfgMap[f])]
+     /\ had = [f \in c.fans |-> [data |-> FanOf(e.fans, f).hadData, map |-> FanOf(e.fans, f).hadMap \/ c.cfgMap[f]]]
 
 Keep(vs) == UNCHANGED vs
 
